@@ -3,11 +3,11 @@
 import json, os, shutil, sys, re
 pid, n, det, checks, note = sys.argv[1], sys.argv[2], sys.argv[3], sys.argv[4], sys.argv[5]
 src = "/tmp/seedwork/%s" % pid
-rnd = {"b": 2, "c": 3, "d": 4, "e": 5, "f": 6, "g": 7, "h": 8, "i": 9}.get(pid[-1], 1)
+rnd = {"b": 2, "c": 3, "d": 4, "e": 5, "f": 6, "g": 7, "h": 8, "i": 9, "j": 10}.get(pid[-1], 1)
 round2 = rnd > 1
 prop = pid[:-1] if round2 else pid
 # rounds 3 (c) and 4 (d) covered disjoint halves of the properties: both are the third pair of their property
-dst = "/verif/seeded/%s-%s" % (prop, int(n) + 2 * ({1: 0, 2: 1, 3: 2, 4: 2, 5: 3, 6: 4, 7: 5, 8: 6, 9: 7}[rnd]))
+dst = "/verif/seeded/%s-%s" % (prop, int(n) + 2 * ({1: 0, 2: 1, 3: 2, 4: 2, 5: 3, 6: 4, 7: 5, 8: 6, 9: 7, 10: 8}[rnd]))
 os.makedirs(dst, exist_ok=True)
 shutil.copy(src + "/change%s.diff" % n, dst + "/patch.diff")
 shutil.copy(src + "/demo%s.py" % n, dst + "/demo.py")
